@@ -76,12 +76,25 @@ impl<'a> Interp<'a> {
                     }
                     let mut pids: Vec<u32> = td.partitions.iter().map(|p| p.id).collect();
                     pids.sort();
+                    // stored consumer offsets of partition 1: consumers 1..2 and every live group
+                    let mut offs: Vec<(bool, u32, u64)> = vec![];
+                    if let (Some(admin), true) = (self.tcp.as_ref(), pids.contains(&1)) {
+                        let mut whos: Vec<(bool, u32)> = vec![(false, 1), (false, 2)];
+                        whos.extend(groups.iter().map(|g| (true, g.id)));
+                        for (is_group, id) in whos {
+                            let cons = if is_group { Consumer::group(Identifier::numeric(id).unwrap()) } else { Consumer::new(Identifier::numeric(id).unwrap()) };
+                            let o = admin.get_consumer_offset(&cons, &sid, &tid, Some(1)).await.map_err(|e| (format!("get_consumer_offset({},{},{}{id})", s.id, t.id, if is_group { "group " } else { "" }), e))?;
+                            if let Some(o) = o {
+                                offs.push((is_group, id, o.stored_offset));
+                            }
+                        }
+                    }
                     tv.push(json!({
                         "id":t.id,"name":t.name,"partitions_count":td.partitions_count,"partition_ids":pids,
                         "listed_partitions_count":t.partitions_count,
                         "expiry":Self::expiry_str(&td.message_expiry),"max_size":Self::size_str(&td.max_topic_size),
                         "repl":td.replication_factor,"compression":td.compression_algorithm.to_string(),
-                        "messages_count":td.messages_count,"by_name":t_by_name,"groups":gv,
+                        "messages_count":td.messages_count,"by_name":t_by_name,"groups":gv,"offsets":offs,
                     }));
                 }
                 sv.push(json!({"id":s.id,"name":s.name,"topics_count":sd.topics_count,"listed_topics_count":s.topics_count,
@@ -160,6 +173,7 @@ impl<'a> Interp<'a> {
                     "expiry":Self::expiry_resolved(t.expiry),"max_size":self.size_resolved(t.max_size),
                     "repl":t.repl,"compression":CompressionAlgorithm::None.to_string(),
                     "messages_count":count,"by_name":bn,"groups":gv,
+                    "offsets":if self.tcp.is_some() { t.offsets.iter().map(|((g, id), o)| (*g, *id, *o)).collect::<Vec<(bool, u32, u64)>>() } else { vec![] },
                 }));
                 nt += 1;
                 np += t.partitions;
